@@ -358,6 +358,30 @@ fn cli_level(rep: &Report) {
             let mut c = Cmd::new(&a).env("KESTREL_PASSWORD", pw);
             c.stdout_closed_pipe = true;
             cases.push((format!("{}-n{}-stdout-closed-pipe", name, n), c, files.clone()));
+            // output file under a size limit: a write is short, the next fails (quota / nearly full disk)
+            let full_len = match name {
+                "encrypt" => 132 + 32 * ((n + 65535) / 65536).max(1) + n,
+                "pass-encrypt" => 36 + 32 * ((n + 65535) / 65536).max(1) + n,
+                _ => n,
+            };
+            let mut lims: Vec<u64> = vec![];
+            if full_len > 0 {
+                lims.push((full_len - 1) as u64);
+                lims.push((full_len / 2) as u64);
+                if full_len > 20 {
+                    lims.push(10);
+                }
+                if full_len > 66000 {
+                    lims.push(65600);
+                }
+            }
+            for lim in lims {
+                let mut a = base.clone();
+                a.extend_from_slice(&[input, "-o", "out.bin"]);
+                let mut c = Cmd::new(&a).env("KESTREL_PASSWORD", pw);
+                c.fsize_limit = Some(lim);
+                cases.push((format!("{}-n{}-o-size-limit-{}", name, n, lim), c, files.clone()));
+            }
             // input is a directory: open succeeds, read fails
             let mut a = base.clone();
             a.extend_from_slice(&[".", "-o", "out.bin"]);
